@@ -80,6 +80,14 @@ package gates
 //@   flag inline-at-calls
 //@   loop 0 invariant -1 <= rangeindex && rangeindex < len(barycentricWeightsStr) && len(barycentricWeightsInt) == len(barycentricWeightsStr)
 
+//@ func NewSelectorsInfo(selectorIndices []uint64, groupStarts []uint64, groupEnds []uint64) (res *SelectorsInfo)
+//@   props C19
+//@   plain
+//@   ensures len(groupStarts) == len(groupEnds)
+//@   ensures len(res.selectorIndices) == len(selectorIndices) && forall(k, 0, len(selectorIndices), res.selectorIndices[k] == selectorIndices[k])
+//@   ensures len(res.groups) == len(groupStarts) && forall(k, 0, len(groupStarts), res.groups[k].start == groupStarts[k] && res.groups[k].end == groupEnds[k])
+//@   loop 0 invariant -1 <= rangeindex && rangeindex < len(groupStarts) && len(groups) == rangeindex + 1 && forall(k, 0, rangeindex + 1, groups[k].start == groupStarts[k] && groups[k].end == groupEnds[k])
+
 //@ func NewEvaluateGatesChip(api frontend.API, gates []Gate, numGateConstraints uint64, selectorsInfo SelectorsInfo) (res *EvaluateGatesChip)
 //@   props C16
 //@   circuit sound-only
